@@ -2,7 +2,8 @@
 // limit that always keeps the most recent item.
 // Monitor shape: RM (sequential reference model compared after every operation: Keys() order, Len,
 // SizeInBytesContained, read results) + HIST (short concurrent histories checked with porcupine
-// against the same whole-cache model) + RACE (race reports are evidence only).
+// against the same whole-cache model; same-key add-if-missing storms checked per key against a register
+// model and against Keys/Len/Size at quiescent points, see storm.go) + RACE (race reports are evidence only).
 package main
 
 import (
@@ -659,11 +660,12 @@ func concurrentHistory(r *vk.Run, c *vk.Case, h int, rng *vk.Rand) {
 func main() {
 	_ = logger.SetLogLevel("*:NONE")
 	r := vk.Start("C28")
-	r.Rule("sequential: per case one cache (capacityLRU directly or behind lrucache.NewCacheWithSizeInBytes), item limit 1..6, byte limit 1..40, 2..9 keys, random AddSized / AddSizedIfMissing / AddSizedAndReturnEvicted / Get / Peek / Contains / Remove / Purge with sizes 0..limit+5 incl. resizing updates; a case is non-trivial when at least one eviction happened; distinct = (implementation, limits bucket, set of events seen). concurrent: 4..8 clients x 2..5 ops on <= 6 keys incl. Keys/Len/Size observers, checked with porcupine; non-trivial when operations overlapped")
+	r.Rule("sequential: per case one cache (capacityLRU directly or behind lrucache.NewCacheWithSizeInBytes), item limit 1..6, byte limit 1..40, 2..9 keys, random AddSized / AddSizedIfMissing / AddSizedAndReturnEvicted / Get / Peek / Contains / Remove / Purge with sizes 0..limit+5 incl. resizing updates; a case is non-trivial when at least one eviction happened; distinct = (implementation, limits bucket, set of events seen). concurrent: 4..8 clients x 2..5 ops on <= 6 keys incl. Keys/Len/Size observers, checked with porcupine; non-trivial when operations overlapped. same-key storms: per case one long-lived cache with 100..1500 filler items and room for everything, 3..8 contender and 2..4 reader goroutines that live as long as the case, 40..120 rounds; in a round all contenders, released together by a spinning barrier, call add-if-missing for the same hot key (fresh, removed earlier, sometimes present; same size, own value) while the readers keep the mutex busy with Contains/Peek on that key and other keys and now and then Keys/Len/Size; a removal every few rounds; after every round the count of 'was missing' answers, every 25 rounds and at the end Keys/Len/Size/Peek against the reference, at the end per key a porcupine check of all its add-if-missing calls, removals and recorded reads against a one-key register model")
 	r.Assume("reference LRU written in the harness: update = move to most-recent + replace value and size; eviction drops oldest while more than one item is held and (items > limit or bytes > limit)",
 		"eviction flags / evicted maps returned by the add operations are recorded as observations only (the property does not state them)",
 		"porcupine v1.3.0 is trusted; call/return stamps come from one atomic counter around each call",
-		"negative sizes are outside the domain")
+		"negative sizes are outside the domain",
+		"same-key storms: the cache has room for every key, so nothing is evicted and the reference LRU restricted to one key is a register (absent, or present with the value of the add-if-missing call that was told 'missing'); reads that are not recorded are left out of the histories (sound: they do not change the state); not replay-deterministic")
 	r.MinShapes(40)
 
 	seqCases := r.N(6000, 80000)
@@ -671,17 +673,37 @@ func main() {
 	concCases := r.N(400, 6000)
 	histPerCase := r.N(10, 20)
 
-	r.Parallel(seqCases+concCases, func(c *vk.Case) {
-		if c.Idx < seqCases {
-			sequentialCase(r, c, seqOps)
-			return
-		}
-		for h := 0; h < histPerCase; h++ {
-			concurrentHistory(r, c, h, c.Rng)
-		}
-	})
+	stormCases := r.N(60, 1200)
+	firstStorm := seqCases + concCases
+
+	t0 := time.Now() // phase timings go to the evidence only
+	if r.ReplayCase < firstStorm {
+		r.Parallel(firstStorm, func(c *vk.Case) {
+			if c.Idx < seqCases {
+				sequentialCase(r, c, seqOps)
+				return
+			}
+			for h := 0; h < histPerCase; h++ {
+				concurrentHistory(r, c, h, c.Rng)
+			}
+		})
+	}
+	t1 := time.Now()
+	// same-key add-if-missing storms (see storm.go): few workers, so that the goroutines of a wave really run in parallel
+	if r.ReplayCase < 0 || r.ReplayCase >= firstStorm {
+		r.ParallelW(firstStorm+stormCases, 4, func(c *vk.Case) {
+			if c.Idx < firstStorm {
+				return
+			}
+			stormCase(r, c)
+		})
+	}
+	r.Extra("phase_wall_s", map[string]float64{"sequential+concurrent histories": t1.Sub(t0).Seconds(), "same-key storms": time.Since(t1).Seconds()})
 
 	if r.ReplayCase < 0 {
+		if r.Counter("storm_races_on_an_absent_key") < int64(stormCases*30) {
+			r.Inconclusive(fmt.Sprintf("only %d same-key add-if-missing races on an absent key were run", r.Counter("storm_races_on_an_absent_key")))
+		}
 		if r.Counter("histories_with_overlapping_operations") < int64(concCases*histPerCase/20) {
 			r.Inconclusive(fmt.Sprintf("only %d of %d concurrent histories had overlapping operations", r.Counter("histories_with_overlapping_operations"), concCases*histPerCase))
 		}
